@@ -260,7 +260,8 @@ def history(rng, kind, nops, pool=None, news=True):
             elif r < 0.83: ops.append("%s rem %d %s" % (kind, s, K()))
             elif r < 0.84: ops.append("%s clear %d" % (kind, s))
             elif r < 0.87: ops.append("%s clone %d %d" % (kind, s, S()))
-            elif r < 0.895: ops.append("%s share %d %d" % (kind, s, S()))
+            elif r < 0.89: ops.append("%s share %d %d" % (kind, s, S()))
+            elif r < 0.895: ops.append("%s dup %d" % (kind, s))
             elif r < 0.94: ops.append("%s eq %d %d" % (kind, s, S()))
             elif r < 0.96: ops.append("%s dump %d" % (kind, s))
             elif r < 0.99: ops.append("%s raw %d" % (kind, s))
@@ -271,7 +272,8 @@ def history(rng, kind, nops, pool=None, news=True):
             elif r < 0.55: ops.append("%s has %d %s" % (kind, s, K()))
             elif r < 0.56: ops.append("%s clear %d" % (kind, s))
             elif r < 0.58: ops.append("%s clone %d %d" % (kind, s, S()))
-            elif r < 0.60: ops.append("%s share %d %d" % (kind, s, S()))
+            elif r < 0.595: ops.append("%s share %d %d" % (kind, s, S()))
+            elif r < 0.60: ops.append("%s dup %d" % (kind, s))
             elif r < 0.62: ops.append("%s from %d %s" % (kind, s, " ".join(K() for _ in range(rng.randrange(0, 6)))))
             elif r < 0.65: ops.append("%s addset %d %d" % (kind, s, S()))
             elif r < 0.67: ops.append("%s addself %d" % (kind, s))
@@ -435,7 +437,8 @@ def growth(rng, kind, n, start=None, removes=0.1, shared=None):
             ops.append("%s share 0 3" % kind)
         if shared and i == shared[1]:
             ops += ["%s len 3" % kind, "%s eq 0 3" % kind, "%s eq 3 0" % kind, "%s has 3 %s" % (kind, live[-1] if live else ks),
-                    "%s dump 3" % kind, "%s raw 3" % kind, "%s raw 0" % kind, "%s new 3 4" % kind]
+                    "%s dump 3" % kind, "%s raw 3" % kind, "%s raw 0" % kind,
+                    ("%s new 3 4" if rng.random() < 0.5 else "%s dup 3") % kind, "%s raw 3" % kind]
         # insert through either handle while shared
         hs_ = 3 if shared and shared[0] <= i < shared[1] and rng.random() < 0.3 else 0
         ops.append("%s %s %d %s" % (kind, ins, hs_, ks) + ("" if kind in SETS else " %d" % i))
@@ -524,7 +527,7 @@ def gen(rng, tier):
     return cases
 
 
-MUT = ("initasg", "asgfrom", "share", "addself", "set", "asg", "idx", "rem", "ins", "from", "addset", "add", "clear", "union", "inter", "diff", "clone")
+MUT = ("dup", "initasg", "asgfrom", "share", "addself", "set", "asg", "idx", "rem", "ins", "from", "addset", "add", "clear", "union", "inter", "diff", "clone")
 OBS = ("find", "has", "get", "cidx", "dump", "keys", "eq", "len", "cont", "any", "union", "inter", "diff", "idx")
 
 
@@ -604,7 +607,7 @@ def layout_stats(cases):
         _Tbl.C = {"mul": 33, "dflt": 256, "num": 7, "den": 8, "fac": 8, "max": 280000}
     st = {k: 0 for k in ("rem_head_with_tail", "rem_mid", "rem_last", "rem_single", "rem_absent", "rehash_events",
                          "rehash_max_buckets", "max_chain", "eq_same_size", "eq_across_sizes", "self_merge", "share_ops",
-                         "growth_due_while_shared", "new_with_size_below_1", "index_assign_from_own_element",
+                         "growth_due_while_shared", "new_with_size_below_1", "index_assign_from_own_element", "dup_in_place_while_shared",
                          "self_merge_at_growth_threshold", "raw_observations")}
     for c in cases:
         T = {kind: [_Tbl() for _ in range(4)] for kind in HASHED + SETS}
@@ -632,10 +635,11 @@ def layout_stats(cases):
                 a.index(K(t[4]), st, sh); a.index(K(t[3]), st, sh)
             elif op == "rem": a.remove(K(t[3]), st)
             elif op == "clear": a.b = {}; a.n = 0
-            elif op == "clone":
+            elif op in ("clone", "dup"):
                 nt = _Tbl(_Tbl.nextpot(a.nb))
                 for k in a.enum(): nt.index(k, st)
-                sl[int(t[3]) % 4] = nt
+                sl[int(t[3]) % 4 if op == "clone" else s] = nt
+                if op == "dup" and sh: st["dup_in_place_while_shared"] += 1
             elif op == "eq":
                 st["eq_same_size" if a.nb == sl[int(t[3]) % 4].nb else "eq_across_sizes"] += 1
             elif op == "from":
@@ -715,6 +719,7 @@ def simulate(case):
                 return " ".join([str(len(x)), "empty" if not x else "nonempty"] + [_ks(kind, k) for k in ks])
             if op == "new": sl[s] = {}; out.append("ok 0")
             elif op == "share": sl[int(t[3]) % 4] = a; out.append("ok %d" % len(a))
+            elif op == "dup": sl[s] = dict(a); out.append("ok %d" % len(a))
             elif op == "ins": a[_k(kind, t[3])] = 1; out.append("ok %d" % len(a))
             elif op == "rem": a.pop(_k(kind, t[3]), None); out.append("ok %d" % len(a))
             elif op == "has": out.append("1" if _k(kind, t[3]) in a else "0")
@@ -739,6 +744,7 @@ def simulate(case):
         ordered = kind in ORDERED
         if op == "new": sl[s] = {}; out.append("ok 0")
         elif op == "share": sl[int(t[3]) % 4] = a; out.append("ok %d" % len(a))
+        elif op == "dup": sl[s] = dict(a); out.append("ok %d" % len(a))
         elif op in ("set", "asg"): a[_k(kind, t[3])] = V(t[4]); out.append("ok %d" % len(a))
         elif op == "idx":
             k = _k(kind, t[3]); a.setdefault(k, dflt); out.append("%s %d" % (VS(a[k]), len(a)))
@@ -910,8 +916,11 @@ LEVEL_TEXT = ("Proved in Lean 4, for ALL inputs and histories, about the executa
               "ascending, each key once, length() = number of distinct keys; == iff equal abstract maps; (3) HashMap/HashDic for an "
               "ARBITRARY hash function and any positive table size: the invariant (every key in bucket binOf(key), chains duplicate-free, "
               "count = number of entries) is preserved by operator[], set, remove (repaired d4d2172), clear, rehash and dup/clone, and holds "
-              "for the table of every constructor argument incl. 0 and negative size hints (repaired 16300ca, hashmap_ofSize); while a "
-              "second handle shares the table rehash is a no-op (repaired c201e90, rehash_shared_noop), so handles never split; "
+              "for the table of every constructor argument incl. 0 and negative size hints (repaired 16300ca, hashmap_ofSize); the "
+              "handle-level model the driver runs (AslModel.HashMap.Fam: objects = slots naming tables; member call, handle copy "
+              "`object j = object i`, re-initialisation, clone()/dup()) refines a store of finite maps with the same aliasing for every "
+              "history (handles_refine, handles_observe): what is done through one object is seen through exactly the objects naming the "
+              "same map; "
               "find/has/get walking one chain equal a linear search of the whole enumeration; rehash preserves the abstract map; every "
               "history refines K->Option V (hashmap_refines_finmap); the enumeration lists each entry exactly once and tables with equal "
               "contents enumerate permutations of each other; operator== (repaired 12cf1de) iff equal abstract maps, whatever the insertion "
@@ -931,9 +940,16 @@ LEVEL_NOTE = ("The loop/branch structure of the models is tied to the code by K 
               "only by the `raw` observations (bucket count + enumeration order) and by G for the constants; a change there that keeps "
               "the container a correct finite map is reported as VIOLATION ... no-failing-input-found (model no longer describes the "
               "code), not as a failing input. HashMap has no merge member: merges are Map::add and Set::operator<<(Set) (both in the "
-              "history theorems, including self-merge). nextPoT: proved least power of two >= n for 1 <= n <= 4096 only; nextPoT(0) "
-              "is 1 in the model but wraps to a 0-bucket table in the code (HashMap(0)/Set(0) index out of range) - outside the 'positive "
-              "table size' all theorems assume, and the generator never passes 0. Validated by K only: Array<T>::insert/remove/clone as "
+              "history theorems, including self-merge). nextPoT: proved least power of two >= n for 1 <= n <= 4096 only; size hints "
+              "below 1 are clamped to 1 by HashMap(int) since 16300ca (before: a 0-bucket table and an out-of-bounds read) and are "
+              "generated (0, -1). Shared handles (HashMap c = m / operator=) are generated for the hash containers (ops `share`, in-place "
+              "`dup`): in the MODEL one table object stands for a set of handles, so handles cannot split there by construction and "
+              "handles_refine holds whatever the growth rule is; that the CODE's handles behave like that model (growth suppressed while "
+              "_rc() > 1, c201e90; operator= taking the source first, f87e2b1; self-assignment, 91e0bf7; no node leaked or used after "
+              "free) is established by K under ASan/LSan only, not by a theorem - reference counts, node ownership and destructors are "
+              "not modelled beyond `rc` = number of handles. rehash_shared_noop / index_shared_keeps_size are definitional unfoldings of "
+              "the model's `rc > 1` disjunct. Shared handles of the ORDERED Map/Dic are not generated: they share an Array, whose growth "
+              "while shared is C01's known finding. Validated by K only: Array<T>::insert/remove/clone as "
               "list operations (C01), chain nodes' new/delete and the LeakSanitizer verdict, const operator[] default objects, the "
               "foreach/Enumerator plumbing (s << s around the growth threshold runs rehash inside the enumeration of s itself; exercised "
               "under ASan, modelled as enumerate-then-insert, equal by K). Equality/merge theorems for hash containers assume both tables "
@@ -944,7 +960,8 @@ LEVEL_NOTE = ("The loop/branch structure of the models is tied to the code by K 
               "containers get `m[k] = m[j]` with arbitrary keys, also at the growth thresholds (the model assumes g++'s right-operand-first "
               "evaluation, confirmed by `raw`). Dic::operator=(initializer_list) with values that are references to the map's own values "
               "(repaired 8e6a06f; before: cleared first, then read emptied / freed values) is generated for Dic<String> (op `initasg`) "
-              "and is, in the model, reading the values then Map.add into an empty map, i.e. a history the refinement theorem covers; "
+              "and is composed in the driver from Map.index (reading the values) and Map.add into an empty map: each step is covered by "
+              "the per-operation refinement lemmas, the composition itself is not an MOp of map_refines_finmap and is validated by K; "
               "multi-pair lists keep every referenced key present for the same reason as above. String keys are NUL-free (strcmp vs memcmp disagree on embedded NUL). No "
               "statement is left partial; hashmap_remove_head_counterexample / hashmap_eq_order_counterexample are about transcriptions of "
               "the pre-fix code kept in AslProps/C02.lean (their premise - the model's enumeration order is the code's - is what `raw` "
